@@ -136,6 +136,8 @@ fn decode(t: &mut Tape) -> Case {
         if run_left > 0 {
             if isa.is_x86() && t.chance(1, 8) {
                 items.push(gen_overlap(t, isa));
+            } else if isa.is_x86() && t.chance(1, 12) {
+                items.push(Item::Rep { count: t.below(4) as u8, op: t.below(4) as u8 });
             } else {
                 items.push(Item::S(gen_simple(t, isa)));
             }
@@ -145,7 +147,24 @@ fn decode(t: &mut Tape) -> Case {
         let len = isa.pool().len();
         let mut junk_after = false;
         match t.weighted(&[40, 18, 20, 6, 8, 12]) {
-            0 => items.push(Item::Cond { cc: t.below(18) as u8, ra: t.below(len) as u8, rb: t.below(len) as u8, target: 0, into_slot: t.chance(1, 50), near: t.chance(1, 3), slot: gen_slot(t, isa) }),
+            0 => {
+                let (cc, ra, rb) = (t.below(20) as u8, t.below(len) as u8, t.below(len) as u8);
+                let (into_slot, near) = (t.chance(1, 50), t.chance(1, 3));
+                let mut slot = gen_slot(t, isa);
+                if t.chance(1, 4) {
+                    // MIPS: the delay slot rewrites the TESTED register, around the values where the
+                    // test flips (the branch is decided on the value from before the slot).  The
+                    // instruction in front brings the register to 0 / 1 / -1.
+                    let pre = match t.below(3) {
+                        0 => Simple { kind: 2, op: 1, rd: ra, rs: ra, imm: t.below(2) as u32, ..Simple::default() },
+                        1 => Simple { kind: 6, op: 2, rd: ra, rt: ra, imm: 30, ..Simple::default() },
+                        _ => Simple { kind: 2, op: 4, rd: ra, rs: ra, imm: t.raw() & 0xffff, ..Simple::default() },
+                    };
+                    items.push(Item::S(pre));
+                    slot = Simple { kind: 2, op: [0u8, 3, 2, 1][t.below(4)], rd: ra, rs: ra, imm: [1u32, 0xffff, 0][t.below(3)], ..Simple::default() };
+                }
+                items.push(Item::Cond { cc, ra, rb, target: 0, into_slot, near, slot });
+            }
             1 => {
                 items.push(Item::Jmp { target: 0, into_slot: t.chance(1, 50), near: t.chance(1, 3), abs: t.chance(1, 2), slot: gen_slot(t, isa) });
                 junk_after = true;
@@ -168,7 +187,7 @@ fn decode(t: &mut Tape) -> Case {
                     items.push(Item::Dispatch { slot: gen_slot(t, isa) });
                     junk_after = true;
                 } else {
-                    items.push(Item::Cond { cc: t.below(18) as u8, ra: t.below(len) as u8, rb: t.below(len) as u8, target: 0, into_slot: false, near: t.chance(1, 3), slot: gen_slot(t, isa) });
+                    items.push(Item::Cond { cc: t.below(20) as u8, ra: t.below(len) as u8, rb: t.below(len) as u8, target: 0, into_slot: false, near: t.chance(1, 3), slot: gen_slot(t, isa) });
                 }
             }
         }
@@ -288,6 +307,10 @@ fn initial_state(c: &Case, p: &Program, names: &BTreeMap<String, usize>) -> RefS
         st.mem.bytes.insert(SCRATCH + i, mix(c.seed, 0x1000 + i) as u8);
     }
     if c.isa.is_x86() {
+        // flat memory: the string instructions address their destination through es
+        if let Some(w) = names.get("es_base") {
+            st.scalars.insert("es_base".into(), Bv::from_u64(0, *w));
+        }
         st.scalars.insert(sp_or_link.into(), Bv::from_u64(STACK, wb));
         let ret = RET_ADDR.to_le_bytes();
         for i in 0..16u64 {
@@ -504,6 +527,9 @@ fn check(c: &Case, obs: &mut Obs) -> Result<(), Failure> {
     if st.taken > 0 {
         obs.class("taken-branch");
     }
+    for cl in &st.dyn_classes {
+        obs.class(cl);
+    }
     if let Some(h) = p.disp_addr {
         if st.evs.iter().any(|e| e.0 == h) {
             obs.class("dispatch-executed");
@@ -530,7 +556,16 @@ fn check(c: &Case, obs: &mut Obs) -> Result<(), Failure> {
         let wlen = (region_end - p.entry).min(64) as usize;
         let off = (p.entry - p.base) as usize;
         let window = &p.bytes[off..off + wlen];
-        if let Ok(Ok(btr)) = guard(|| translator.translate_block(window, p.entry, &Options::default())) {
+        let btr = guard(|| translator.translate_block(window, p.entry, &Options::default()));
+        // a rep-prefixed instruction executes a number of times that depends on the state (also
+        // zero times): "visits the block's instructions in order" says nothing about it
+        let has_rep = match &btr {
+            Ok(Ok(b)) => b.instructions().iter().any(|(a, _)| p.by_addr.get(a).map(|k| p.insns[*k].text.starts_with("rep")).unwrap_or(false)),
+            _ => false,
+        };
+        if has_rep {
+            obs.class("blockify-skipped:rep-instruction");
+        } else if let Ok(Ok(btr)) = btr {
             let expected: Vec<u64> = btr.instructions().iter().filter(|(_, g)| g.blocks().iter().any(|b| !b.is_empty())).map(|(a, _)| *a).collect();
             match guard(|| btr.blockify()) {
                 Ok(Ok(g)) => {
@@ -855,7 +890,7 @@ fn simplify(c: &Case) -> Vec<Case> {
                 d.items[i] = Item::S(nop.clone());
                 v.push(d);
             }
-            Item::SetDisp { .. } => {
+            Item::SetDisp { .. } | Item::Rep { .. } => {
                 let mut d = c.clone();
                 d.items[i] = Item::S(nop.clone());
                 v.push(d);
@@ -987,7 +1022,7 @@ pub fn fuzz_bytes(data: &[u8]) {
 fn main() -> std::process::ExitCode {
     let mut spec = Spec::new(
         "C06",
-        "machine-code programs of 3-60 items for x86/amd64/mips/mipsel/aarch64 (ALU, scratch loads/stores, forward/backward conditional and unconditional direct branches, counted loops, optional jmp-reg dispatch with manual edges, junk islands; x86/amd64: direct branches into the middle of an instruction whose immediate bytes are instructions, i.e. overlapping decodings) recovered with translate_function[_extended] and compared, structurally against the generator's ground truth (every step unit's successors agree with the generator's direct targets and fall-throughs, every reachable instruction's IL present exactly once and in no more blocks than its own lifting has, entry block at the function address, no dangling edge/entry/exit, manual tails lifted and connected) and behaviourally (Driver and reference interpreter on the recovered function vs a sequential one-unit-at-a-time stepper, same random initial state, up to 2000 native steps: one event per executed native instruction, address and state digest; plus blockify() of the entry window vs the stepper); non-trivial = at least 2 blocks after merge and at least one taken branch in the execution; distinct = (ISA, set of layout shapes {window cut, straddle, cut on boundary, MIPS branch in last 8 bytes, mid-block target, backward, entry loop, manual edges, overlapping decode, ...}, instruction-count bucket)",
+        "machine-code programs of 3-60 items for x86/amd64/mips/mipsel/aarch64 (ALU, scratch loads/stores, forward/backward conditional and unconditional direct branches, counted loops, optional jmp-reg dispatch with manual edges, junk islands; x86/amd64: direct branches into the middle of an instruction whose immediate bytes are instructions, i.e. overlapping decodings, loop/loope/loopne/jecxz, rep-prefixed string instructions with counts 0-3; mips: beqz/bnez and delay slots that rewrite the tested register) recovered with translate_function[_extended] and compared, structurally against the generator's ground truth (every step unit's successors agree with the generator's direct targets and fall-throughs, a MIPS conditional branch continues where its test on the registers from BEFORE the delay slot says, every reachable instruction's IL present exactly once and in no more blocks than its own lifting has, entry block at the function address, no dangling edge/entry/exit, manual tails lifted and connected) and behaviourally (Driver and reference interpreter on the recovered function vs a sequential one-unit-at-a-time stepper, same random initial state, up to 2000 native steps: one event per executed native instruction, address and state digest; plus blockify() of the entry window vs the stepper); non-trivial = at least 2 blocks after merge and at least one taken branch in the execution; distinct = (ISA, set of layout shapes {window cut, straddle, cut on boundary, MIPS branch in last 8 bytes, mid-block target, backward, entry loop, manual edges, overlapping decode, ...}, instruction-count bucket)",
         Box::new(|_t: Tier| from_tape(1200, decode).no_shrink().boxed()),
         |t| t.pick(45_000, 1_500_000),
         check,
@@ -999,6 +1034,7 @@ fn main() -> std::process::ExitCode {
         "executions stop at the first Branch whose target lies outside the lifted code (the terminator's return address)".into(),
         "a Branch operation into the function continues at the head of the target instruction's graph (reference run) / where Driver::step puts it (Driver run)".into(),
         "MIPS: no branch in a delay slot; the delay slot of jr never writes the target register (C02|mips|jr|target-after-slot)".into(),
+        "x86: es_base is 0 (flat memory); a rep-prefixed string instruction is one event per executed iteration and none when its count is zero, on both sides".into(),
         "PowerPC is not generated (its lifter has almost no branch forms)".into(),
     ];
     // 0.4-0.5 of the smallest fraction measured over seeds 1..5 (45 000 cases each), see the report
@@ -1044,6 +1080,12 @@ fn main() -> std::process::ExitCode {
         ("overlapping-decode:inner-transfer", 0.017),
         ("end:exit", 0.27),
         ("blockify-compared", 0.5),
+        // mips: an executed conditional branch whose delay slot changed the outcome of its own test
+        ("slot-flips-branch-test", 0.005),
+        // x86 / amd64: loope / loopne left through its ZF condition, the count register not zero
+        ("loopcc-left-with-count-nonzero", 0.003),
+        // x86 / amd64: an executed rep-prefixed string instruction whose count register is zero
+        ("rep-with-count-zero", 0.02),
     ];
     spec.workers = |t| t.pick(8, 16);
     spec.case_timeout_s = 120;
